@@ -222,6 +222,28 @@ func checkAfterFault(e *Env, before *Model, target *Op, err error, k int, st *St
 		}
 		excluded = true
 	}
+	// 1b. the application tries again (synchronous update, the storage works again): an
+	// acknowledged retry has written the object - its file holds what the handle reads
+	if target.Op == "update" && e.cfg.Async == nil && k%2 == 0 {
+		if id, ok := e.liveRef(target.Ref); ok {
+			d := cloneDoc(e.m.objs[id])
+			applySets(d, target.Sets)
+			d.Initialize(id)
+			if rerr := e.db.InsertOrUpdate(d); rerr == nil {
+				probe := &Doc{}
+				probe.Initialize(id)
+				got, gerr := e.db.Get(probe)
+				wf, onDisk := WalkDir(e.collDir()).Objects[id]
+				if gerr != nil || !onDisk {
+					e.failf("%s: the same update was tried again and acknowledged; Get err=%v, object file present=%v", where, gerr, onDisk)
+				}
+				if fd, derr := wf.Doc(); derr != nil || canon(fd) != canon(got) {
+					e.failf("%s: the same update was tried again and acknowledged; the handle reads %s, the object file holds %v (err=%v)", where, canon(got), fd != nil && canon(fd) == canon(got), derr)
+				}
+				st.Add("acknowledged_retries_checked", 1)
+			}
+		}
+	}
 	// 2. a restarting application (the handle is abandoned, as after a crash)
 	e.abandoned = append(e.abandoned, e.db)
 	e.db = nil
